@@ -650,7 +650,7 @@ func runC16(c *eng.Ctx) {
 					case r < 0x80:
 						alt += fmt.Sprintf("\\x%02x", r)
 					default:
-						alt += fmt.Sprintf("\\u%04x", r)
+						alt += runeEscape(r)
 					}
 					i += size
 				}
